@@ -1282,17 +1282,6 @@ def cache_clause(world, resources, options, calls):
 
 # ---------------------------------------------------------------------------------------------- findings
 
-def finding_pdfua_empty():
-    """document.copy([]).write_pdf(pdf_variant='pdf/ua-1') raises UnboundLocalError (plain PDF: fine)."""
-    document = docs.render(SINK_HTML)
-    document.copy([]).write_pdf()
-    try:
-        document.copy([]).write_pdf(pdf_variant='pdf/ua-1')
-    except UnboundLocalError:
-        return True
-    return False
-
-
 def finding_stale_link_annotation():
     """pdf/ua-1 of a copy whose page links to an anchor on an unselected page depends on whether the whole document
     was written before: add_links leaves the box's `link_annotation` of the earlier PDF in place for the dropped link,
@@ -1448,21 +1437,21 @@ class C19(PropCheck):
         in_domain = zoom > 0 and all(level >= 1 for page in document.pages for level, *_ in page.bookmarks)
         sel, variant = meta.get('sel'), meta.get('variant')
         if sel is not None:
-            if variant == 'pdf/ua-1' and sel != 'all' and len(sel) == 0:
-                return None       # known finding pdfua-empty-selection, replayed separately
             what = copy_clause(document, sel, zoom if zoom > 0 else 1)
             if what:
                 return what
             document = document.copy('all' if sel == 'all' else [document.pages[i] for i in sel])
-        if not in_domain or not document.pages:
+        if not in_domain:
             return None
         if variant:
             try:
                 document.write_pdf(pdf_variant=variant)
             except Exception as exc:  # noqa: BLE001
-                if getattr(document, '_html', None) is None:
-                    return None   # a hand-made Document has no HTML tree: outside the API contract
+                if document.pages and getattr(document, '_html', None) is None:
+                    return None   # a hand-made Document with pages but no HTML tree: outside the API contract
                 return f'write_pdf(pdf_variant={variant!r}) raised {type(exc).__name__}: {exc}'
+        if not document.pages:
+            return None
         return zoom_clause(document, zoom)
 
     def _judge_sinks(self, d):
@@ -1602,8 +1591,7 @@ class C19(PropCheck):
 
     # -- replay -----------------------------------------------------------------------------------------------
     def finding_replays(self):
-        return {'pdfua-empty-selection': finding_pdfua_empty,
-                'stale-link-annotation': finding_stale_link_annotation,
+        return {'stale-link-annotation': finding_stale_link_annotation,
                 'dpi-thumbnail-replaces-source': finding_dpi_rewrite,
                 'image-cache-ignores-options': finding_cache_options, 'bleedbox-cap-not-zoomed': finding_bleedbox_cap,
                 'font-config-accumulates-font-faces': finding_font_config}
@@ -1666,7 +1654,7 @@ MANIFEST = {
             'correspondence on generated documents, synthetic pages, call histories and recorded constructor traces.',
     'note': 'Partial by nature: determinism across processes / PYTHONHASHSEED, byte identity and non-mutation of caller '
             'objects are runtime behaviour; they are exercised by the history harness (validation), not proved. Known '
-            'findings: BleedBox 10pt cap is not scaled by zoom; pdf/ua-1 of an empty selection fails; pdf/ua-1 of a '
+            'findings: BleedBox 10pt cap is not scaled by zoom; pdf/ua-1 of a '
             'copy depends on an earlier write (stale link_annotation); dpi: the '
             'first write replaces the image source by its thumbnail; the image cache ignores the image options; a '
             'document\'s @font-face stays registered in the caller\'s FontConfiguration.',
